@@ -261,8 +261,10 @@ pub fn run_opts<'a, R: Send + 'a>(threads: Vec<Vec<OpFn<'a, R>>>, chooser: &mut 
             let t0 = Instant::now();
             while shared.slots[w].state.load(Ordering::SeqCst) == RUNNING {
                 std::thread::park_timeout(Duration::from_millis(50));
-                if t0.elapsed() > Duration::from_secs(20) {
-                    eprintln!("pv: watchdog: worker {} made no announcement for 20 s (inconclusive)", w);
+                // (generous: on a machine that is heavily oversubscribed by other work a descheduled worker was once seen to
+                // stay silent for more than 20 s)
+                if t0.elapsed() > Duration::from_secs(180) {
+                    eprintln!("pv: watchdog: worker {} made no announcement for 180 s (inconclusive)", w);
                     std::process::exit(2);
                 }
             }
@@ -684,7 +686,7 @@ impl Chooser for Window {
 /// shim). Invocation and response "steps" are tickets drawn from one global counter, so `a.response <
 /// b.invoke` still implies that `a` returned before `b` was called and the history oracles stay sound. The
 /// outcome depends on the OS scheduler: a failure found this way is real but reproduces only statistically.
-/// A run that does not finish within 30 s ends the process with exit status 2 (inconclusive).
+/// A run that does not finish within 180 s ends the process with exit status 2 (inconclusive).
 pub fn run_free<'a, R: Send + 'a>(threads: Vec<Vec<OpFn<'a, R>>>, hold_last: bool) -> Exec<R> {
     use std::sync::atomic::AtomicUsize;
     let n = threads.len();
@@ -695,13 +697,13 @@ pub fn run_free<'a, R: Send + 'a>(threads: Vec<Vec<OpFn<'a, R>>>, hold_last: boo
     {
         let done = done.clone();
         std::thread::spawn(move || {
-            for _ in 0..300 {
+            for _ in 0..1800 {
                 std::thread::sleep(std::time::Duration::from_millis(100));
                 if done.load(Ordering::SeqCst) {
                     return;
                 }
             }
-            eprintln!("pv: a free-running case did not finish within 30 s (inconclusive)");
+            eprintln!("pv: a free-running case did not finish within 180 s (inconclusive)");
             std::process::exit(2);
         });
     }
